@@ -5,7 +5,13 @@
 (* a value three units away must be rejected.                               *)
 EXTENDS DecimalExp, TLC, Json, IOUtils
 Cases == ndJsonDeserialize(IOEnv.TRACE)        \* the harness passes (a part of) selftest/decexp_cases.ndjson
-V(r, o) == IF r.op = "exp" THEN AcceptExp(r.a, o) ELSE AcceptLn(r.a, o)
+V(r, o) == IF r.op = "exp" THEN AcceptExp(r.a, o) ELSE IF r.op = "pow" THEN AcceptPow(r.a, r.b, o) ELSE AcceptLn(r.a, o)
+\* the constants of the logarithm, through the exponential: e^LN2lo <= 2 <= e^LN2hi (and 10), to 70 digits
+Two70 == MulPow10(<<2>>, 70)   Ten70 == Pow10(71)
+ConstOk(lo, hi, x70) == LET l == ExpEncl(FALSE, lo, 0 - 4 * K)   h == ExpEncl(FALSE, hi, 0 - 4 * K) IN
+   /\ CmpScaled(x70, 0 - 70, l.lo, l.q) >= 0 /\ CmpScaled(Add(x70, <<1>>), 0 - 70, l.hi, l.q) > 0
+   /\ CmpScaled(x70, 0 - 70, h.hi, h.q) <= 0 /\ CmpScaled(Sub(x70, <<1>>), 0 - 70, h.lo, h.q) < 0
+ASSUME ConstOk(LN2lo, LN2hi, Two70) /\ ConstOk(LN10lo, LN10hi, Ten70)
 VARIABLE i
 Init == i \in 1..Len(Cases)
 Next == FALSE /\ i' = i
